@@ -58,24 +58,29 @@ PROPS["C12"] = {
         "thorough": C12_Q + ["Harness_C12_status_1x3", "Harness_C12_alloc_n2p1r2", "Harness_C12_alloc_n2p2"],
         "opts": {"timeout": 20000},
         "reach": {h: ["granted", "refused"] for h in ["Harness_C12_alloc_n1p0", "Harness_C12_alloc_n2p1"]},
+    }, {
+        "pkg": "provider/cluster", "files": ["harness/C12/loop.go"], "shims": ["shim.go.tmpl", "shim_loop.go.tmpl"],
+        "quick": ["Harness_C12_loop_5"], "thorough": ["Harness_C12_loop_6"], "opts": {"timeout": 20000, "witness": 4},
+        "reach": {"Harness_C12_loop_5": ["returned"]},
     }],
     "bounds": {
-        "quick": "getStatus: <=2 reservations x <=2 resource records, symbolic cpu/memory/storage in [0,2^62), replica count 1..2, 0..2 endpoints, symbolic allocated flag; reservationAllocateable: <=2 nodes with symbolic available capacity, <=1 pending reservation plus the new one, <=2 records, replica count 1..2, symbolic free ports; the existential placement oracle is expanded over all assignments of the bounded instance",
+        "quick": "getStatus: <=2 reservations x <=2 resource records, symbolic cpu/memory/storage in [0,2^62), replica count 1..2, 0..2 endpoints, symbolic allocated flag; reservationAllocateable: <=2 nodes with symbolic available capacity, <=1 pending reservation plus the new one, <=2 records, replica count 1..2, symbolic free ports; the existential placement oracle is expanded over all assignments of the bounded instance; inventoryService.run loop: <=5 environment selects (thorough 6) with <=3 reserve requests (1..2 endpoints each, 2 external ports configured), <=2 releases, 1 status query, <=3 deployment-status events (pending/deployed for 2 orders), inventory refresh ok/failed, shutdown",
         "thorough": "adds 3 records per reservation, 2 pending reservations",
     },
     "stubs": COMMON_STUBS + ["prometheus metrics -> not reached (functions are called directly, not through the event loop)"],
-    "outside_claim": ["the select loop of inventoryService.run (event interleavings) and the commit-level float kernel are separate harnesses", "metrics", "Kubernetes inventory fetch"],
+    "outside_claim": ["the commit-level float kernel is covered with C11", "metrics", "Kubernetes inventory fetch", "true multi-goroutine interleavings"],
     "assumptions": ["node inventories carry non-nil cpu/memory/storage"],
 }
 
-C17_Q = ["Harness_C17_list_1", "Harness_C17_list_2", "Harness_C17_create_0", "Harness_C17_create_1", "Harness_C17_revoke_1", "Harness_C17_revoke_2"]
+C17_Q = ["Harness_C17_list_1", "Harness_C17_list_2", "Harness_C17_create_0", "Harness_C17_create_1", "Harness_C17_revoke_1", "Harness_C17_revoke_2",
+         "Harness_C17_pages_owner_2", "Harness_C17_pages_owner_3", "Harness_C17_pages_all_2"]
 PROPS["C17"] = {
     "jobs": [{
         "pkg": "x/cert/keeper",
-        "files": ["harness/C17/certs.go"],
+        "files": ["harness/C17/certs.go", "harness/C17/query.go"],
         "shims": ["shim.go.tmpl", "shim_chain.go.tmpl", "shim_cert.go.tmpl"],
         "quick": C17_Q,
-        "thorough": C17_Q + ["Harness_C17_list_3", "Harness_C17_create_2", "Harness_C17_list_1_wide", "Harness_C17_list_2_wide", "Harness_C17_create_1_wide", "Harness_C17_revoke_1_wide"],
+        "thorough": C17_Q + ["Harness_C17_pages_owner_3b", "Harness_C17_pages_all_3", "Harness_C17_list_3", "Harness_C17_create_2", "Harness_C17_list_1_wide", "Harness_C17_list_2_wide", "Harness_C17_create_1_wide", "Harness_C17_revoke_1_wide"],
         "opts": {"timeout": 20000, "maxbigbytes": 9},
     }],
     "bounds": {
@@ -275,14 +280,14 @@ PROPS["C20"] = {
     "assumptions": ["a second send on a full capacity-1 reply channel blocks the manager forever (counted as a hang)"],
 }
 
-C11_Q = ["Harness_C11_namespace", "Harness_C11_container", "Harness_C11_netpol", "Harness_C11_netpol_off", "Harness_C11_objects"]
+C11_Q = ["Harness_C11_namespace", "Harness_C11_container", "Harness_C11_netpol", "Harness_C11_netpol_2", "Harness_C11_netpol_off", "Harness_C11_objects"]
 PROPS["C11"] = {
     "jobs": [{"pkg": "provider/cluster/kube", "files": ["harness/C11/builders.go"], "quick": C11_Q, "thorough": C11_Q,
               "opts": {"timeout": 30000, "witness": 4},
               "reach": {"Harness_C11_namespace": ["namespace"], "Harness_C11_container": ["container"], "Harness_C11_netpol": ["netpol"]}},
              {"pkg": "provider/cluster/kube", "files": ["harness/C11/builders.go"], "quick": ["Harness_C11_commit"], "thorough": ["Harness_C11_commit"],
               "opts": {"timeout": 60000, "witness": 2, "inctimeout": 0}, "reach": {"Harness_C11_commit": ["commit"]}}],
-    "bounds": {"quick": "lidNS on an arbitrary 28-byte digest (arbitrary owner address; SHA-224 uninterpreted); deploymentBuilder.create/update/container with symbolic cpu/memory/storage in [1,2^44] (bit-vectors) at commit levels 0/0.5/1, 3 runtime classes; the float64 commit-level kernel ComputeCommittedResources for every value in [1,2^44] at the factors {0,0.5,1,1.5,2,3,10,1024} (a fully symbolic factor times out on all three solvers); netPolBuilder.create with one service and one symbolic expose, evaluated by a policy evaluator in the harness for an arbitrary peer (same namespace / ingress namespace / ingress pod flags), destination port and protocol, and an arbitrary IPv4 egress address (bit-vector) and port; nsBuilder and serviceBuilder objects",
+    "bounds": {"quick": "lidNS on an arbitrary 28-byte digest (arbitrary owner address; SHA-224 uninterpreted); deploymentBuilder.create/update/container with symbolic cpu/memory/storage in [1,2^44] (bit-vectors) at commit levels 0/0.5/1, 3 runtime classes; the float64 commit-level kernel ComputeCommittedResources for every value in [1,2^44] at the factors {0,0.5,1,1.5,2,3,10,1024} (a fully symbolic factor times out on all three solvers); netPolBuilder.create with one and with two services, one symbolic expose each, the attacked pod belonging to either service, evaluated by a policy evaluator in the harness for an arbitrary peer (same namespace / ingress namespace / ingress pod flags), destination port and protocol, and an arbitrary IPv4 egress address (bit-vector) and port; nsBuilder and serviceBuilder objects",
                "thorough": "same harnesses with a 240 s solver budget"},
     "stubs": COMMON_STUBS + ["sha256.Sum224 -> native on concrete input, fresh symbolic digest on symbolic input", "strings.ToLower -> per-byte ite", "math.Round -> fp.roundToIntegral RNA", "resource.Quantity -> opaque integer amount with scale (NewQuantity/NewScaledQuantity/DeepCopy/Value/MilliValue)"],
     "outside_claim": ["distinct leases => distinct namespaces rests on SHA-224 collision resistance (assumed)", "the namespace ARGUMENT passed to the Kubernetes client in client.go/apply.go/cleanup.go (needs a clientset model; not built)", "ingress objects", "what the API server / CNI enforce", "commit factors other than the 8 listed; values above 2^44"],
@@ -313,3 +318,10 @@ PROPS["C15"] = {
     "level": "other",
     "explanation": "Solver-decided single-step lemmas on the real (*bus).run body and newSubscriber (publish hands the event to every child once and appends it once; emit sends and drops exactly the oldest buffered event; a clone starts with a private copy of the undelivered buffer; unsubscribe removes the child; shutdown signals and collects every child and notifies the parent once; no step blocks). The property's end-to-end statement over all interleavings of concurrent goroutines follows from these lemmas only through a hand-written compositional argument (per-subscriber FIFO invariant: delivered ++ buffer = published since subscription) which is NOT checked by the solver; multi-goroutine interleavings are outside bounded single-goroutine symbolic execution.",
 }
+
+PROPS["C10"]["jobs"] = PROPS["C10"]["jobs"] + PROPS["C20"]["jobs"]
+PROPS["C10"]["bounds"] = {k: v + "; version rule of validateRequest: in the C20 manager harness a manifest is accepted only with the expected version (last update, else chain version) - version hashes are injective tags" for k, v in PROPS["C10"]["bounds"].items()}
+
+PROPS["C02"]["jobs"] = PROPS["C02"]["jobs"] + [esc_job("C02")]
+PROPS["C02"]["bounds"] = {k: v + "; plus the escrow keeper step (see C03): per step a payee is credited at most rate x elapsed blocks, only through its own account, transferred = credited" for k, v in PROPS["C02"]["bounds"].items()}
+PROPS["C02"]["stubs"] = CHAIN_STUBS
